@@ -198,6 +198,7 @@ impl DefaultInputTextPlugin {
 
 // R11: `impl InputTextPlugin for DefaultInputTextPlugin { fn rewrite_impl }` checked as an inherent fn of the same body
 //@extract sudachi/src/plugin/input_text/default_input_text/mod.rs :: impl InputTextPlugin for DefaultInputTextPlugin :: fn rewrite_impl
+//@  twin
 //@  rw R14 1 custom
 //@  | is_nfkc_quick\(chars\.iter\(\)\.cloned\(\)\)
 //@  > nfkc_quick_text(chars)
